@@ -1,8 +1,10 @@
-(** C08 — JSON data passes through unchanged (partial: text-level number
-    reading/printing is serde_json's and zmij's, modelled and validated by
-    correspondence with an independent oracle; see DESIGN.md).  Statements only. *)
+(** C08 — JSON data passes through unchanged (partial: the text-level reading
+    and printing of floating-point numerals is serde_json's and zmij's, modelled
+    and validated by correspondence with an independent oracle; everything else
+    — integers of the 64-bit ranges, strings, nesting, key order, the text round
+    trip of float-free values — is proved on the model).  Statements only. *)
 From Coq Require Import Sorting.Sorted.
-From JP Require Import Base F64 Value Interp Serde Proofs.ObjFacts Proofs.SerdeProof.
+From JP Require Import Base F64 Value JsonRead JsonPrint Interp Serde Proofs.ObjFacts Proofs.SerdeProof Proofs.IntProof Proofs.JsonRoundProof.
 
 (** The identity query returns the document itself. *)
 Theorem C08_identity : forall n rt d o, interp (S n) rt d AIdentity o = Ok (d, o).
@@ -25,3 +27,38 @@ Print Assumptions C08_last_duplicate_wins.
 Theorem C08_value_round_trip : forall v, wf_json v = true -> ser_var (sval_of_value v) = SOk v.
 Proof. exact conv_value_identity. Qed.
 Print Assumptions C08_value_round_trip.
+
+(** Every integer of the unsigned 64-bit range keeps its exact value and its
+    integer spelling: the printer writes its canonical digits and the reader reads
+    exactly that integer back ... *)
+Theorem C08_unsigned_integers_exact : forall z, 0 <= z <= u64_max ->
+  print_json (VNum (PosInt z)) = Ok (digits_of z) /\ from_json (digits_of z) = Ok (Some (VNum (PosInt z))).
+Proof. exact unsigned_roundtrip. Qed.
+Print Assumptions C08_unsigned_integers_exact.
+
+(** ... and every negative integer of the signed 64-bit range. *)
+Theorem C08_negative_integers_exact : forall z, i64_min <= z < 0 ->
+  print_json (VNum (NegInt z)) = Ok (45 :: digits_of (- z)) /\ from_json (45 :: digits_of (- z)) = Ok (Some (VNum (NegInt z))).
+Proof. exact negative_roundtrip. Qed.
+Print Assumptions C08_negative_integers_exact.
+
+Theorem C08_digits_are_canonical : forall z, 0 <= z -> canonical (digits_of z) z.
+Proof. exact digits_of_canonical. Qed.
+Print Assumptions C08_digits_are_canonical.
+
+(** Printing a value and re-parsing the text yields the value — for every value
+    without floating-point numbers (integers in range, strings over all code
+    points, booleans, null, arrays, objects with keys in map order), nested at most
+    127 levels deep (the reader's limit). *)
+Theorem C08_print_then_parse : forall v d, plain d v -> (d <= 127)%nat ->
+  exists text, print_json v = Ok text /\ from_json text = Ok (Some v).
+Proof. exact json_text_round_trip. Qed.
+Print Assumptions C08_print_then_parse.
+
+Example C08_plain_example :
+  plain 2 (VObj [([97], VArr [VNum (PosInt 18446744073709551615); VNum (NegInt (-9223372036854775808)); VStr [34; 92; 10; 128512]; VNull]); ([98], VObj [])]).
+Proof.
+  apply plain_obj. split.
+  - repeat constructor.
+  - repeat constructor; cbn; try lia; try (unfold u64_max, i64_min; lia).
+Qed.
